@@ -36,6 +36,7 @@ class Harness:
         # native concrete playback only makes sense for harnesses without stubs of repository code and
         # without partially initialised contexts (Kani does not apply stubs in playback tests)
         self.playback = kv.get('playback', '0') == '1'
+        self.trivial = kv.get('trivial', '0') == '1'   # concrete harness (no symbolic input)
 
 class Module:
     """One harness file == one child module attached to one repo source file."""
